@@ -152,21 +152,37 @@ func CutReachFrom(p *Prog, fn *ssa.Function, start *ssa.BasicBlock, g Guard, avo
 			key := b
 			done, known := loopCompletes[key]
 			if !known {
-				nestedLoopProbe++
-				inner := CutReachFrom(p, fn, succs[0], g, avoid)
-				nestedLoopProbe--
-				for e := range inner.Edges {
-					if e[1] == b.Index && e[0] != b.Index {
-						if pb := fn.Blocks[e[0]]; b.Dominates(pb) {
-							done = true
+				// every row's iteration must be able to complete
+				ll, _ := LiteralLoopOf(succs[0])
+				done = true
+				probe := func() {
+					nestedLoopProbe++
+					inner := CutReachFrom(p, fn, succs[0], g, avoid)
+					nestedLoopProbe--
+					completes := false
+					for e := range inner.Edges {
+						if e[1] == b.Index && e[0] != b.Index {
+							if pb := fn.Blocks[e[0]]; b.Dominates(pb) {
+								completes = true
+							}
+						}
+					}
+					if !completes {
+						done = false
+					}
+					for _, k := range inner.Instances {
+						if !instSeen[k] {
+							instSeen[k] = true
+							res.Instances = append(res.Instances, k)
 						}
 					}
 				}
-				for _, k := range inner.Instances {
-					if !instSeen[k] {
-						instSeen[k] = true
-						res.Instances = append(res.Instances, k)
+				if _, bound := rowBind[ll.Table]; ll.Header == b && ll.Rows > 0 && !bound {
+					for k := 0; k < ll.Rows; k++ {
+						WithRow(ll.Table, k, probe)
 					}
+				} else {
+					probe()
 				}
 				loopCompletes[key] = done
 			}
@@ -178,7 +194,7 @@ func CutReachFrom(p *Prog, fn *ssa.Function, start *ssa.BasicBlock, g Guard, avo
 			if !allowed[i] {
 				continue
 			}
-			if avoid[s] && !isSink[s] {
+			if (avoid[s] || (AvoidHook != nil && AvoidHook(s))) && !isSink[s] {
 				res.Avoided++
 				continue
 			}
@@ -435,6 +451,12 @@ func evalCond(c ssa.Value, env map[*ssa.Phi]ssa.Value) (val, known bool) {
 			return false, false
 		}
 		l, r := resolve(x.X, env), resolve(x.Y, env)
+		if rv, ok := RowValue(l); ok {
+			l = rv
+		}
+		if rv, ok := RowValue(r); ok {
+			r = rv
+		}
 		eq, k := constEqual(l, r)
 		if !k {
 			return false, false
@@ -443,6 +465,12 @@ func evalCond(c ssa.Value, env map[*ssa.Phi]ssa.Value) (val, known bool) {
 			return !eq, true
 		}
 		return eq, true
+	}
+	// a boolean cell of a literal table, under a row binding
+	if rv, ok := RowValue(c); ok {
+		if _, isConst := rv.(*ssa.Const); isConst {
+			return evalCond(rv, env)
+		}
 	}
 	return false, false
 }
@@ -960,3 +988,9 @@ func literalRangeHeader(b *ssa.BasicBlock) bool {
 	n, ok := LiteralTableLen(lc.Call.Args[0])
 	return ok && n >= 1
 }
+
+
+// AvoidHook, when set, marks further blocks as "required effect passed" - it
+// may consult the current row binding (an effect that concerns one row of a
+// literal-table loop only).
+var AvoidHook func(*ssa.BasicBlock) bool
